@@ -1,8 +1,14 @@
 #!/usr/bin/env python3
-"""Developer aid for C11: (re)writes lean/ExoVerif/Props/C11Tie.lean from the current
-Generated/Facts.lean, classifying every panic-capable site on a block path with the rules below.
-The written file is static (it is what ./check verifies against the regenerated facts); run this only
-after reviewing a changed site list:  python3 tools/gen_c11_review.py"""
+"""Developer aid for C11: (re)writes lean/ExoVerif/Props/C11Tie.lean and lean/ExoVerif/Props/C11Guards.lean from
+the current Generated/Facts.lean, classifying every panic-capable site on a block path with the rules below.
+The written files are static (they are what ./check verifies against the regenerated facts); run this only
+after reviewing a changed site list:  python3 tools/gen_c11_review.py
+
+Classes backed by theorems: `.guard` (a lemma about a kernel regenerated from the enclosing function: the
+quoGuard_* kernels of facts_guards.go and the siteGuard_*/siteSafe_* pairs of facts_siteguards.go, for which
+C11Guards.lean holds one lemma `C11_guard_<Func>_<expr>` each, proved for all values of the parameters) and
+`.invariant` (a theorem of Props/C11Sites.lean connecting the site to a model of OTHER code: a state invariant
+kept by every writer, a contract of the callers, a validation passed before the data was stored)."""
 import os, re, sys
 V = os.path.dirname(os.path.dirname(os.path.abspath(__file__)))
 facts = open(os.path.join(V, "lean/ExoVerif/Generated/Facts.lean")).read()
@@ -13,6 +19,36 @@ def getlist(name):
 
 sites = getlist("panicSitesInBlockPaths")
 roots = getlist("blockPathRoots")
+site_index = getlist("siteGuardIndex")
+
+# site -> (kernel base name, [(param, type)], witness assignment) for the sites that got a kernel pair
+site_kernel = {}
+for line in site_index:
+    parts = line.split(" | ")
+    if len(parts) < 3 or parts[-2].startswith("none"):
+        continue
+    site, kern, wit = " | ".join(parts[:-2]), parts[-2], parts[-1]
+    m = re.match(r'siteGuard_(\w+)((?: \([^)]*\))*)$', kern)
+    assert m, kern
+    params = []
+    for grp in re.findall(r'\(([^)]*)\)', m.group(2)):
+        names, ty = grp.rsplit(" : ", 1)
+        params += [(n, ty) for n in names.split()]
+    w = dict(x.split("=") for x in wit[len("witness: "):].split())
+    site_kernel[site] = (m.group(1), params, w)
+
+# sites discharged by a theorem of Props/C11Sites.lean (state invariants, caller contracts, validations)
+INVARIANT = [
+    (lambda f, fn, kind, expr: kind == "coinsub", "C11_site_fee_allocation_never_overdraws"),
+    (lambda f, fn, kind, expr: kind == "newcoin" and "delegation/keeper/abci.go" in f, "C11_site_undelegation_actual_nonneg_reachable"),
+    (lambda f, fn, kind, expr: kind == "index" and ("fillPrice" in fn or "FillPrice" in fn or "addPSource" in fn), "C11_site_oracle_sources_nonempty"),
+    (lambda f, fn, kind, expr: kind == "index" and "SortByPower" in fn, "C11_site_SortByPower_in_range"),
+    (lambda f, fn, kind, expr: kind == "index" and "dogfood/keeper/abci.go" in f, "C11_site_dogfood_EndBlock_in_range"),
+    (lambda f, fn, kind, expr: kind == "index" and "GetActiveOperatorsForChainID" in fn, "C11_site_GetActiveOperators_in_range"),
+    (lambda f, fn, kind, expr: kind == "intdiv" and "PrepareRoundEndBlock" in fn and "feeder.Interval" in expr, "C11_site_params_validate_feeder"),
+    (lambda f, fn, kind, expr: kind == "index" and "GetTokenInfo" in fn and "p.Tokens[v.TokenID]" in expr, "C11_site_params_validate_feeder"),
+    (lambda f, fn, kind, expr: kind == "newcoin" and "exomint" in f and "params.EpochReward" in expr, "C11_site_epoch_reward_nonneg"),
+]
 
 def q(s): return '"' + s + '"'
 
@@ -20,6 +56,22 @@ def classify(site):
     f, fn, kind, expr = site.split(":", 3)
     if f.startswith("x/appchain/"):
         return '.notWired'
+    if site in site_kernel:
+        return '.guard "C11_guard_%s"' % site_kernel[site][0]
+    for pred, thm in INVARIANT:
+        if pred(f, fn, kind, expr):
+            return '.invariant "%s"' % thm
+    if kind == "conv":
+        if "GetVotePowerForChainID" in fn:
+            return '.finding "F-11f"'
+        if "TotalUSDValue" in expr or "SelfUSDValue" in expr:
+            return '.candidate "F-11f (the same unbounded USD value converted at another site; not reproduced separately: the F-11f history halts at the epoch end first)"'
+        if "previousTotalPower" in expr:
+            return '.candidate "F-11f (sum of the int64 vote powers; CometBFT refuses a total above 2^60 first)"'
+        if "minSelfDelegation" in expr:
+            return '.assumed "the minimum self delegation of the chain\'s own (dogfood) AVS comes from genesis / governance parameters and is far below 2^63"'
+    if kind == "index" and ("IterateAssetsForOperator" in fn or "IterateOperatorsForAVS" in fn) and "keys[1]" in expr:
+        return '.inputChecked "ParseJoinedKey does not check the number of parts: every key of this store is written as GetJoinedStoreKey(a, b) (two parts joined by /) by UpdateOperatorAssetState / SetOperatorUSDValue, and bech32 / hex ids contain no /"'
     if kind == "must":
         if "Marshal" in expr or "Unmarshal" in expr:
             return '.codec'
@@ -94,7 +146,7 @@ def classify(site):
         if "Median" in fn:
             return '.assumed "the calculator only takes the median of a round that holds at least one price"'
         if "parseBalanceChange" in fn or "UpdateNSTByBalanceChange" in fn:
-            return '.candidate "F-11c"'
+            return '.finding "F-11c"'
         if "StakerInfo.Append" in fn:
             return '.loopBound "guarded by len(s.BalanceList) > maxSize"'
         if "GetAssetIDsFromTokenID" in fn:
@@ -115,6 +167,8 @@ findings = [s for s, c in rows if c.startswith('.finding')]
 out = '''import ExoVerif.Generated.Facts
 import ExoVerif.Generated.Kernels
 import ExoVerif.Props.C11
+import ExoVerif.Props.C11Guards
+import ExoVerif.Props.C11Sites
 /-!
 # C11 tie: every panic-capable site on a block path carries a review, encoded here
 
@@ -124,15 +178,18 @@ interface; over-approximating). `reviewTable` pairs each site with the reason it
 or with the finding that shows it can. `C11_panic_sites_eq_reviewed` is the tie: a new unguarded
 division, index, `Must…`, explicit panic, unchecked type assertion or swallowed error in a function on a
 block path (or the removal of one) changes the generated list and breaks the proof until the table is
-updated. `guard` entries name a theorem of `Props/C11.lean` about a model of the enclosing code; the
-other classes are justifications by reading (no theorem), counted in `C11_review_counts`.
+updated. `guard` entries name a theorem about the enclosing code (`Props/C11.lean`: a model; this file: the
+regenerated quoGuard_* kernels; `Props/C11Guards.lean`: the regenerated siteGuard_*/siteSafe_* kernel pairs),
+`invariant` entries a theorem of `Props/C11Sites.lean` about other code the site relies on; the other classes are
+justifications by reading (no theorem), counted in `C11_review_counts`.
 (Written by tools/gen_c11_review.py after review; static afterwards.)
 -/
 namespace ExoVerif.Blocks
 open ExoVerif.Gen
 
 inductive Review where
-  | guard (theoremName : String)   -- proved: the dangerous operand cannot occur (model of the enclosing function)
+  | guard (theoremName : String)   -- proved: the dangerous operand cannot occur (kernel / model of the enclosing function)
+  | invariant (theoremName : String) -- proved on a model of OTHER code: state invariant, caller contract, earlier validation (Props/C11Sites.lean)
   | finding (id : String)          -- it does halt: open defect, replayed on the real application
   | candidate (id : String)        -- suspected, not reproduced
   | codec                          -- (un)marshal of bytes this module wrote itself with the paired Marshal
@@ -145,6 +202,7 @@ inductive Review where
 deriving DecidableEq, Repr
 
 def Review.isGuard : Review → Bool | .guard _ => true | _ => false
+def Review.isInvariant : Review → Bool | .invariant _ => true | _ => false
 def Review.isFinding : Review → Bool | .finding _ => true | _ => false
 def Review.isOpen : Review → Bool | .finding _ => true | .candidate _ => true | .assumed _ => true | .unreviewed => true | _ => false
 
@@ -176,11 +234,12 @@ theorem or a mechanical reason (findings, candidates, by-reading assumptions) -/
 theorem C11_review_counts :
     reviewTable.length = %d ∧
     (reviewTable.filter (·.2.isGuard)).length = %d ∧
+    (reviewTable.filter (·.2.isInvariant)).length = %d ∧
     (reviewTable.filter (·.2.isFinding)).length = %d ∧
     (reviewTable.filter (·.2.isOpen)).length = %d := by
-  refine ⟨by rfl, by rfl, by rfl, by rfl⟩
+  refine ⟨by rfl, by rfl, by rfl, by rfl, by rfl⟩
 
-/-- the sites of open findings (none at present: F-11a's two `panic("unimplemented")` stubs are gone) are on block paths -/
+/-- the sites of the open findings (F-11c: the unchecked slice accesses of parseBalanceChange; F-11f: the TruncateInt64 of an operator's USD value) are on block paths -/
 theorem C11_finding_sites_are_on_block_paths : ∀ s ∈ knownFindingSites, s ∈ panicSitesInBlockPaths := by
   rw [C11_panic_sites_eq_reviewed]
   intro s h
@@ -228,6 +287,17 @@ theorem C11_guard_exact_unguarded : quoGuard_CalculateUSDValue = true ∧ quoGua
 /-- which sites the kernels belong to -/
 theorem C11_quo_guard_index : quoGuardIndex = [
 QUOINDEXLITERAL] := by rfl
+
+/-! ### site guards: for index / integer-division / NewCoin sites the extractor regenerates what is locally known
+at the site (`siteGuard_*`) and what the operation needs (`siteSafe_*`); `Props/C11Guards.lean` proves the
+implication for all values. The index fact records for every such site its kernel, or why it has none (the
+extractor found an assignment that satisfies every local fact but not the safety condition: such a site needs
+a state invariant, or is a defect). -/
+
+set_option maxRecDepth 100000 in
+theorem C11_site_guard_index : siteGuardIndex = [
+SITEINDEXLITERAL] := by rfl
+
 
 /-! ### nil / non-positive price values (nil-dereference kind)
 
@@ -293,10 +363,99 @@ theorem C11_guard_undelegation_actual_nonneg (r : ExoVerif.Ledger.URec) (p : Exo
 theorem C11_appchain_not_wired : appWiredCustomModules.all (fun m => m != "x/appchain/coordinator" && m != "x/appchain/subscriber") = true := by
   decide
 
+/-! ### the theorems the table cites exist -/
+
+/-- the `.guard` / `.invariant` entries of the table, in table order -/
+def citedTheorems : List String :=
+  reviewTable.filterMap (fun p => match p.2 with | .guard n => some n | .invariant n => some n | _ => none)
+
+set_option maxRecDepth 100000 in
+theorem C11_cited_theorems : citedTheorems = [
+CITEDLITERAL] := by rfl
+
+/-- … and every one of them is a theorem of Props/C11.lean, Props/C11Guards.lean, Props/C11Sites.lean or this file
+(this declaration does not elaborate otherwise; written by tools/gen_c11_review.py from the same list) -/
+theorem C11_site_guards_are_proved : True := by
+CITEDHAVES
+  trivial
+
 end ExoVerif.Blocks
-''' % (len(rows), len(rows), cnt['.guard'], cnt['.finding'],
+''' % (len(rows), len(rows), cnt['.guard'], cnt['.invariant'], cnt['.finding'],
        cnt['.finding'] + cnt['.candidate'] + cnt['.assumed'] + cnt['.unreviewed'])
 out = out.replace("PRICELITERALS", ",\n".join("  " + q(x) for x in getlist("oraclePriceLiterals"))).replace("PRICECONSUMERS", ",\n".join("  " + q(x) for x in getlist("priceConsumersOnBlockPaths")))
 out = out.replace("QUOINDEXLITERAL", ",\n".join("  " + q(x) for x in quo_index))
+out = out.replace("SITEINDEXLITERAL", ",\n".join("  " + q(x) for x in site_index))
+cited = [c.split(" ", 1)[1].strip('"') for _, c in rows if c.startswith('.guard ') or c.startswith('.invariant ')]
+out = out.replace("CITEDLITERAL", ",\n".join("  " + q(x) for x in cited))
+def ident(n):  # a citation may carry a remark after the name
+    return n.split(" ")[0]
+uniq = []
+for n in cited:
+    if ident(n) not in uniq:
+        uniq.append(ident(n))
+out = out.replace("CITEDHAVES", "\n".join("  have := @%s" % (n if not n.startswith("C17_") else "ExoVerif.Distr." + n) for n in uniq))
 open(os.path.join(V, "lean/ExoVerif/Props/C11Tie.lean"), "w").write(out)
 print(dict(cnt), "findings:", len(findings))
+
+# ---------------------------------------------------------------- Props/C11Guards.lean
+# proofs that need more than the generic closing tactic (keyed by kernel base name)
+MANUAL = {
+    "Median_b_l_2": """  unfold siteGuard_Median_b_l_2 at h; unfold siteSafe_Median_b_l_2
+  simp only [Bool.and_eq_true, decide_eq_true_eq, beq_iff_eq] at *
+  have hl : 0 ≤ l := by omega
+  rw [Int.tmod_eq_emod_of_nonneg hl] at h
+  rw [Int.tdiv_eq_ediv_of_nonneg hl]
+  omega""",
+}
+
+def lit(v, ty):
+    if ty == "Bool":
+        return v
+    return v if not v.startswith("-") else "(" + v + ")"
+
+g = '''import ExoVerif.Generated.Facts
+/-!
+# C11: the regenerated local guard of a site implies that the site cannot panic
+
+For every index / integer-division / NewCoin site on a block path for which tools/exofacts/facts_siteguards.go
+could translate the panicking operand, `Gen.siteGuard_<Func>_<expr>` is the conjunction of the facts that hold
+whenever control reaches the site (dominating `if`s, loop bounds, range / sort-comparator index bounds,
+single-assignment definitions, `make` lengths, callee post-conditions, non-negativity of lengths and unsigned
+values — each only if nothing writes the variables it mentions in between) and `Gen.siteSafe_<Func>_<expr>` is
+the condition under which the operation does not panic. Both are regenerated from the Go source on every run;
+the lemmas below hold for ALL values of the parameters, so a weakened guard, a changed bound or a changed
+operand makes its lemma fail. Each lemma comes with an assignment that satisfies the guard (found by the
+extractor), so none of them holds vacuously.
+(Written by tools/gen_c11_review.py; static afterwards.)
+-/
+namespace ExoVerif.Blocks
+open ExoVerif.Gen
+
+/-- closes `guard → safe` once both kernels are unfolded: Bool connectives to propositions, then linear arithmetic -/
+macro "c11_site" : tactic => `(tactic| (
+  simp only [Bool.and_eq_true, Bool.or_eq_true, Bool.not_eq_true', Bool.not_eq_eq_eq_not, Bool.not_true, Bool.not_false,
+    decide_eq_true_eq, decide_eq_false_iff_not, beq_iff_eq, bne_iff_ne, ne_eq, beq_eq_false_iff_ne, bne_eq_false_iff_eq,
+    Bool.not_not, Decidable.not_not, Bool.and_true, Bool.true_and] at *
+  <;> omega))
+
+'''
+names = []
+for site in sorted(site_kernel):
+    base, params, w = site_kernel[site]
+    binder = " ".join("(%s : %s)" % (n, ty) for n, ty in params)
+    args = " ".join(n for n, _ in params)
+    wargs = " ".join(lit(w[n], ty) for n, ty in params)
+    bools = [n for n, ty in params if ty == "Bool"]
+    g += "/-- %s -/\n" % site.replace("-/", "- /")
+    g += "theorem C11_guard_%s %s\n    (h : siteGuard_%s %s = true) : siteSafe_%s %s = true := by\n" % (base, binder, base, args, base, args)
+    if base in MANUAL:
+        g += MANUAL[base] + "\n"
+    else:
+        pre = "".join("cases %s <;> " % b for b in bools)
+        g += "  unfold siteGuard_%s at h; unfold siteSafe_%s\n  %sc11_site\n" % (base, base, "(" + pre[:-5] + ") <;> " if bools else "")
+    g += "example : siteGuard_%s %s = true := by decide\n\n" % (base, wargs)
+    names.append("C11_guard_" + base)
+g += "/-- the lemmas above, by name (the review table of C11Tie.lean cites them as strings) -/\ndef provedSiteGuards : List String := [\n" + ",\n".join("  " + q(n) for n in names) + "]\n\n"
+g += "end ExoVerif.Blocks\n"
+open(os.path.join(V, "lean/ExoVerif/Props/C11Guards.lean"), "w").write(g)
+print("site guards:", len(names))
